@@ -1,11 +1,16 @@
-(* C08 -- Restart at any event boundary is invisible.   PARTIAL.
-   Proved: what Bootstrap over the persisted databases is in the model (forget the forkless-cause cache,
-   the build counter and the election's votes; re-vote all stored roots), that it keeps every persisted
-   field when it emits no block, and that whatever it emits obeys the frame numbering.
-   NOT proved: [C08_full] below -- the re-voted election is observationally equal to the incrementally
-   built one.  That is lemma L1 of C01/C10 (votes are a function of the processed set; worker bft).
-   The full statement is evaluated on every generated case by the correspondence (restarted vs
-   never-restarted real instance vs model) and below on two concrete runs. *)
+(* C08 -- Restart at any event boundary is invisible.
+   Proved by worker abft: what Bootstrap over the persisted databases is in the model (forget the
+   forkless-cause cache, the build counter and the election's votes; re-vote all stored roots), that it keeps
+   every persisted field when it emits no block, and that whatever it emits obeys the frame numbering.
+   Proved by worker link (further down, proofs/Link*.v): the re-voted election is observationally equal to the
+   incrementally built one -- restarts at any operation boundary of single-epoch runs
+   (C08_restart_invisible_on_valid_runs, C08_restart_invisible_at_any_boundary), right after a seal
+   (C08_restart_after_seal_invisible) and anywhere in runs over several epochs under an arbitrary policy,
+   with the restart's own report (no error, no block, decided frame and epoch) compared with the reference
+   (C08_restart_invisible_across_epochs, C08_restart_reports_the_decided_state).  In the model the persisted
+   index data is the index itself (persist: p_idx = l_idx), so "a fresh vector index over persisted data" is
+   the identity there.  [C08_full] below is additionally evaluated on every generated case by the
+   correspondence (restarted vs never-restarted real instance vs model). *)
 From Coq Require Import NArith List.
 From LV Require Import model.VecIndex model.Abft model.AbftRun
   proofs.AbftSeal proofs.AbftProcess proofs.AbftRestart proofs.AbftSealWitness proofs.AbftForkWitness.
